@@ -67,19 +67,26 @@ def ref_host_list(patterns, host, addr):
 
 
 def ref_tokenize_options(line):
-    """sshd(8): options are comma separated, no spaces except within double quotes; a backslash escapes the next
-    character (used for \\" inside quoted values).  Returns (list of raw option strings, rest of line) or raises
-    ValueError for an unterminated quote / trailing backslash.  States: plain / quoted / escaped."""
+    """Option field of an authorized_keys line, OpenSSH rules (sshd(8) AUTHORIZED_KEYS FILE FORMAT; sshkey.c
+    sshkey_advance_past_options, auth-options.c opt_dequote):
+      * options are comma separated; the field ends at the first blank (space / tab) outside double quotes;
+      * a double quote opens / closes a quoted section (quotes themselves are dropped);
+      * the ONLY escape is backslash-doublequote, which stands for a literal double quote and does not open or close
+        a quoted section; every other backslash is an ordinary character (a backslash does not escape a backslash,
+        a comma or a blank, and a trailing backslash is just a backslash);
+      * a quoted section still open at the end of the line is an error.
+    Returns (list of raw option strings, rest of line, a blank ended the field?) or raises ValueError."""
     opts, cur = [], ''
-    quoted = escaped = False
+    quoted = False
     end = None
-    for i, ch in enumerate(line):
-        if escaped:
-            cur += ch
-            escaped = False
-        elif ch == '\\':
-            escaped = True
-        elif ch == '"':
+    i, n = 0, len(line)
+    while i < n:
+        ch = line[i]
+        if ch == '\\' and i + 1 < n and line[i + 1] == '"':
+            cur += '"'
+            i += 2
+            continue
+        if ch == '"':
             quoted = not quoted
         elif quoted:
             cur += ch
@@ -91,9 +98,10 @@ def ref_tokenize_options(line):
             cur = ''
         else:
             cur += ch
+        i += 1
     opts.append(cur)
-    if quoted or escaped:
-        raise ValueError('unbalanced')
+    if quoted:
+        raise ValueError('missing end quote')
     rest = line[end:].strip() if end is not None else ''
     return opts, rest, end is not None
 
@@ -339,15 +347,20 @@ if z3 is not None:
         return [idx_dom(dom, val, n, e) == dom, idx_val(dom, val, n, e) == val]
 
     def idx_snoc(dom, val, s, x, e):
+        """an empty item of the comma list ('a,' / 'a,,b') names no host: it is not indexed (a lookup name is never
+        meant to be empty, and '' must not become a key that every address-less lookup hits)"""
         sx = z3.Concat(s, z3.Unit(x))
-        d1, v1 = idx_add_one(idx_dom(dom, val, s, e), idx_val(dom, val, s, e), x, e)
-        return [idx_dom(dom, val, sx, e) == d1, idx_val(dom, val, sx, e) == v1]
+        d0, v0 = idx_dom(dom, val, s, e), idx_val(dom, val, s, e)
+        d1, v1 = idx_add_one(d0, v0, x, e)
+        named = z3.Length(x) > 0
+        return [idx_dom(dom, val, sx, e) == z3.If(named, d1, d0), idx_val(dom, val, sx, e) == z3.If(named, v1, v0)]
 
-    # ---- option tokenizer (sshd(8) AUTHORIZED_KEYS FILE FORMAT): automaton {plain, quoted, escaped} run on a prefix
-    # of the line.  tq/te: inside double quotes / just after a backslash; tcur: the option being collected;
-    # topts: options already completed by a comma; tstop: an unquoted blank has ended the option field.
+    # ---- option tokenizer, OpenSSH rules (see ref_tokenize_options): state of the scan after a prefix of the line.
+    # tq: inside double quotes; te: the last character was a backslash whose meaning depends on the next one (a
+    # literal backslash unless a double quote follows); tcur: the option collected so far WITHOUT that pending
+    # backslash; topts: options completed by a comma; tstop: an unquoted blank has ended the option field.
     tq = z3.Function('tok_quoted', StrS, BoolS)
-    te = z3.Function('tok_escaped', StrS, BoolS)
+    te = z3.Function('tok_pending_backslash', StrS, BoolS)
     tcur = z3.Function('tok_current', StrS, StrS)
     topts = z3.Function('tok_done', StrS, SSTR)
     tstop = z3.Function('tok_stopped', StrS, BoolS)
@@ -356,28 +369,37 @@ if z3 is not None:
     def _sv(x):
         return z3.StringVal(x)
 
-    def tok_stopcond(q, e, ch):
-        """an unescaped, unquoted blank ends the options"""
-        return z3.And(z3.Not(e), z3.Not(q), z3.Or(ch == _sv(' '), ch == _sv('\t')))
+    def tok_blank(ch):
+        return z3.Or(ch == _sv(' '), ch == _sv('\t'))
+
+    def tok_stopcond(q, ch):
+        """a blank outside double quotes ends the options (a backslash in front of it is an ordinary character)"""
+        return z3.And(z3.Not(q), tok_blank(ch))
+
+    def tok_final(s):
+        """the option being collected when the field ends after s: a pending backslash is a literal backslash"""
+        return z3.If(te(s), z3.Concat(tcur(s), _sv('\\')), tcur(s))
 
     def tok_empty():
         e = _sv('')
         return [z3.Not(tq(e)), z3.Not(te(e)), tcur(e) == e, topts(e) == z3.Empty(SSTR), z3.Not(tstop(e))]
 
     def tok_snoc(s, ch):
-        """one step of the automaton: definition of the state functions on s ++ ch (ch a single character)"""
+        """one step of the scan: definition of the state functions on s ++ ch (ch a single character)"""
         sx = z3.Concat(s, ch)
         q, e, cur, done = tq(s), te(s), tcur(s), topts(s)
-        bs, dq, comma = ch == _sv('\\'), ch == _sv('"'), ch == _sv(',')
-        stop = tok_stopcond(q, e, ch)
-        plain = z3.And(z3.Not(e), z3.Not(bs), z3.Not(dq))          # an ordinary character in this state
-        keep = z3.Or(e, z3.And(plain, z3.Or(q, z3.And(z3.Not(stop), z3.Not(comma)))))   # appended to the option
-        split = z3.And(plain, z3.Not(q), z3.Not(stop), comma)
+        bs, dq, comma, blank = ch == _sv('\\'), ch == _sv('"'), ch == _sv(','), tok_blank(ch)
+        esc_quote = z3.And(e, dq)                                   # \" : a literal double quote
+        cur1 = z3.If(e, z3.Concat(cur, _sv('\\')), cur)             # otherwise a pending backslash was literal
+        stop = z3.And(z3.Not(esc_quote), tok_stopcond(q, ch))
+        split = z3.And(z3.Not(esc_quote), z3.Not(q), comma)
+        keep = z3.And(z3.Not(bs), z3.Not(dq), z3.Or(q, z3.And(z3.Not(blank), z3.Not(comma))))
         return [z3.Implies(z3.Length(ch) == 1, z3.And(
-            te(sx) == z3.And(z3.Not(e), bs),
-            tq(sx) == z3.If(z3.And(z3.Not(e), z3.Not(bs), dq), z3.Not(q), q),
-            tcur(sx) == z3.If(keep, z3.Concat(cur, ch), z3.If(split, _sv(''), cur)),
-            topts(sx) == z3.If(split, z3.Concat(done, z3.Unit(cur)), done),
+            te(sx) == z3.And(z3.Not(esc_quote), bs),
+            tq(sx) == z3.If(z3.And(z3.Not(esc_quote), dq), z3.Not(q), q),
+            tcur(sx) == z3.If(esc_quote, z3.Concat(cur, _sv('"')),
+                              z3.If(keep, z3.Concat(cur1, ch), z3.If(split, _sv(''), cur1))),
+            topts(sx) == z3.If(split, z3.Concat(done, z3.Unit(cur1)), done),
             tstop(sx) == z3.Or(tstop(s), stop)))]
 
     # ---- known_hosts file -> index operations (SSH_KNOWN_HOSTS FILE FORMAT), one line at a time
@@ -596,12 +618,12 @@ def _hashed(name, salt=b'0123456789abcdefghij'):
     return '|1|%s|%s' % (binascii.b2a_base64(salt).decode().strip(), binascii.b2a_base64(h).decode().strip())
 
 
-_KH_FIELDS = ['host', 'host,10.0.0.1', '*.example.com', '*.example.com,!bad.example.com', '[host]:2222',
+_KH_FIELDS = ['host,', ',other,,10.0.0.1', 'host', 'host,10.0.0.1', '*.example.com', '*.example.com,!bad.example.com', '[host]:2222',
               '[*.example.com]:2222', '[host]:2222,[10.0.0.1]:2222', '10.0.0.0/8', '!host,*', 'ho?t', 'other',
               '[*.example.com]:2222,![bad.example.com]:2222', 'H1', 'H2', 'H3', '10.0.0.1']
 _KH_LOOKUPS = [('host', '10.0.0.1', None), ('host', '10.0.0.1', 2222), ('a.example.com', '', None),
                ('a.example.com', '', 2222), ('bad.example.com', '10.9.9.9', 2222), ('bad.example.com', '', None),
-               ('host', '', 22), ('', '10.0.0.1', None), ('hoot', '192.168.1.1', None), ('other', '10.0.0.1', 2222)]
+               ('host', '', 22), ('', '10.0.0.1', None), ('x', '', None), ('', '192.168.1.1', 2222), ('hoot', '192.168.1.1', None), ('other', '10.0.0.1', 2222)]
 
 
 def _kh_cases(rnd, count, with_ip_literal_in_list):
@@ -694,6 +716,44 @@ def _check_oracle_vs_ssh_keygen(tier, seed):
     return n, bad[:5], ''
 
 
+def _check_oracle_options_vs_ssh_keygen(tier, seed):
+    """validates the ORACLE: where ref_tokenize_options ends the option field / rejects an open quote, against
+    `ssh-keygen -l` (sshkey_advance_past_options) on generated lines  <options> KEY cN"""
+    import os
+    import subprocess
+    import tempfile
+    if not os.path.exists('/usr/bin/ssh-keygen'):
+        return 0, [], 'ssh-keygen not installed: oracle validation skipped'
+    keys = _gen_keys(1)
+    kt = ' '.join(keys[0][1])
+    # (ssh-keygen -l wants exactly one blank between options and key type - sshd skips any run - so fields that
+    # would put two blanks in a row outside quotes are left out; they say nothing about quoting)
+    fields = [f for f in _strings(['a', ',', '"', '\\', ' '], 5 if tier == 'thorough' else 4)
+              if f and f[0] != ' ' and '  ' not in f + ' ']
+    bad = []
+    with tempfile.TemporaryDirectory() as d:
+        path = os.path.join(d, 'ak')
+        with open(path, 'w') as f:
+            for i, opts in enumerate(fields):
+                f.write('%s %s c%d\n' % (opts, kt, i))
+        p = subprocess.run(['/usr/bin/ssh-keygen', '-l', '-f', path], capture_output=True, text=True)
+        accepted = set()
+        for l in p.stdout.splitlines():
+            parts = l.split()
+            if len(parts) >= 3 and parts[2].startswith('c') and parts[2][1:].isdigit():
+                accepted.add(int(parts[2][1:]))
+    for i, opts in enumerate(fields):
+        line = '%s %s c%d' % (opts, kt, i)
+        try:
+            _o, rest, _b = ref_tokenize_options(line)
+            want = rest.split()[:2] == kt.split() and rest.split()[2:] == ['c%d' % i]
+        except ValueError:
+            want = False
+        if want != (i in accepted):
+            bad.append({'options': opts, 'ssh-keygen accepts the line': i in accepted, 'oracle': want})
+    return len(fields), bad[:5], ''
+
+
 def _check_validate(tier, seed):
     """authorized_keys: first line whose key equals and whose from=/principals= restrictions accept the client"""
     import random
@@ -753,7 +813,8 @@ def _check_option_handlers(tier, seed):
         ('tunnel="1",tunnel="2"', {'tunnel': ['1', '2']}),
         ('environment="=x"', ValueError), ('environment="novalue"', ValueError), ('permitopen="h"', ValueError),
         ('permitopen="h:x"', ValueError), ('=v', ValueError), ('command="unterminated', ValueError),
-        ('command="x"\\', ValueError),
+        ('command="x"\\', {'command': 'x\\'}),             # a trailing backslash is an ordinary character
+        ('command="C:\\\\dir \\d+"', {'command': 'C:\\\\dir \\d+'}),   # backslashes are kept
     ]
     for opts, want in cases:
         n += 1
@@ -808,6 +869,7 @@ def native_checks(tier, seed):
     run('C17.bounded#authorized-keys-validate', _check_validate, tier, seed)
     run('C17.bounded#option-handlers', _check_option_handlers, tier, seed)
     run('C17.bounded#oracle-vs-ssh-keygen', _check_oracle_vs_ssh_keygen, tier, seed)
+    run('C17.bounded#oracle-vs-ssh-keygen-options', _check_oracle_options_vs_ssh_keygen, tier, seed)
     return out
 
 
